@@ -6,6 +6,8 @@ open Util
        (<cfg> = strat cap max minInc gnum gden tnum tden blockTimeoutNs; a step `U what` = the harness observed
         something unexpected there and let the instance run freely: the replay stops with a diff, the end state is judged)
      R <cfg> # <rows per producer> # <dropped input_count cap> # <processed ids>   random run: checker only
+   optional 5th section: F: the ids of the rows emitted as nil maps (processed as -1, see resolve_nils);
+   R: `nil-rows-are-producer P` (the nil rows are booked on the virtual producer P, by position)
    The model replayed is the one of the repaired code (ig_locked_recv = true). *)
 
 (* the strategy the configuration selects is computed by the extracted model (ig_strat_of: "block" is the
@@ -79,13 +81,34 @@ let replay (c : igcfg) (toks : string list) : igst * bool =
   go toks;
   (!s, !expanded || List.length !s.ig_chans > 1)
 
+(* Rows emitted as nil maps (Emit(nil); harness/c19d.go). The model never looks at a row's payload: a nil row is an
+   ordinary row with an id. The sink cannot tell nil rows apart and records -1; `nils` = the ids they stand for, in
+   emission order. The j-th processed nil row gets the identity the model has at that position when that is an
+   emitted nil row not used yet, otherwise the earliest emitted nil row not used yet; a nil row beyond the emitted
+   ones becomes a row nobody emitted (unknown_row). Counts (conservation, duplicates) do not depend on the choice. *)
+let resolve_nils (nils : igid list) (model_proc : igid list) (proc : string list) : igid list =
+  let unused = ref nils in
+  let take x = unused := List.filter (fun y -> y <> x) !unused in
+  let rec go toks mp = match toks with
+    | [] -> []
+    | t :: r ->
+        let mhd, mtl = (match mp with h :: tl -> Some h, tl | [] -> None, []) in
+        let id =
+          if t = "-1" && nils <> [] then
+            (match mhd with
+             | Some h when List.mem h !unused -> take h; h
+             | _ -> (match !unused with h :: _ -> take h; h | [] -> (nat_of_int 7, nat_of_int 99999)))
+          else id_of t in
+        let rest = go r mtl in
+        id :: rest in
+  go proc model_proc
+
 let handle (toks : string list) : string =
   match toks with
   | "F" :: rest ->
-      (match Win.split_hash rest with
-       | [cfg; steps; [dropped; emitted; cap; len]; proc] ->
+      (match (match Win.split_hash rest with [a; b; c; d] -> [a; b; c; d; []] | l -> l) with
+       | [cfg; steps; [dropped; emitted; cap; len]; proc; nils] ->
            let c = cfg_of cfg in
-           let proc = List.map id_of proc in
            (* rows emitted per producer = the Emit calls the harness issued (tokens `E p` and `em p`) *)
            let counts = Array.make 8 0 in
            let rec cnt = function
@@ -95,6 +118,7 @@ let handle (toks : string list) : string =
            cnt steps;
            let ns = List.map nat_of_int (Array.to_list counts) in
            let model = (try Ok (replay c steps) with Diff d -> Error d) in
+           let proc = resolve_nils (List.map id_of nils) (match model with Ok (s, _) -> s.ig_processed | Error _ -> []) proc in
            (* the property on the implementation's own end state, whether or not the model could follow *)
            (match chk_C19 c.ig_strat c.ig_cap0 c.ig_max ns (nat dropped) (nat emitted) (nat cap) (nat len) proc with
             | Some cl ->
@@ -111,7 +135,8 @@ let handle (toks : string list) : string =
        | _ -> "bad line")
   | "R" :: rest ->
       (match Win.split_hash rest with
-       | [cfg; ns; [dropped; input; cap]; proc] ->
+       | [cfg; ns; [dropped; input; cap]; proc]
+       | [cfg; ns; [dropped; input; cap]; proc; ["nil-rows-are-producer"; _]] ->
            let c = cfg_of cfg in
            let proc = List.map id_of proc in
            (match chk_C19 c.ig_strat c.ig_cap0 c.ig_max (List.map nat ns) (nat dropped) (nat input) (nat cap) O proc with
